@@ -3,7 +3,8 @@
 
 use crate::core::*;
 use crate::rng::Rng;
-use cosmwasm_std::{MemoryStorage, Order, Storage};
+use crate::engines::e2_views::LooseStore;
+use cosmwasm_std::{Order, Storage};
 use cw_multi_test::verif_hooks::{transactional, Overlay};
 use serde::{Deserialize, Serialize};
 use serde_json::json;
@@ -17,6 +18,10 @@ pub enum Op {
     Remove(String),
     /// A nested cache over the current level. `helper`: drive it through `transactional(..)`.
     Child { helper: bool, ops: Vec<Op>, commit: bool },
+    /// one read of one key (what the overlay answers may depend on what was read before)
+    Get(String),
+    /// an iteration that is advanced `take` records and then dropped
+    Scan { start: Option<String>, end: Option<String>, desc: bool, take: u32 },
 }
 
 #[derive(Clone, Debug, Serialize, Deserialize)]
@@ -28,6 +33,9 @@ pub struct Case {
     /// how many bound pairs to sample after each op (0 = all pairs)
     pub sample_pairs: u32,
     pub check_seed: u64,
+    /// no sweep of reads between the operations (only after the last one of a level): the reads are the program's own
+    #[serde(default)]
+    pub sparse: bool,
 }
 
 pub struct Stats<'a> {
@@ -37,6 +45,7 @@ pub struct Stats<'a> {
     pub sample_pairs: u32,
     pub failed: Option<(String, String)>, // (signature, detail)
     pub max_depth: usize,
+    pub sparse: bool,
 }
 
 fn dump(s: &dyn Storage) -> Vec<(Vec<u8>, Vec<u8>)> {
@@ -291,7 +300,9 @@ fn run_ops(
     depth: usize,
     st: &mut Stats,
 ) {
-    st.compare(cache, model, delta, base_model, false, &format!("depth {} fresh cache", depth));
+    if !st.sparse {
+        st.compare(cache, model, delta, base_model, false, &format!("depth {} fresh cache", depth));
+    }
     for (i, op) in ops.iter().enumerate() {
         if st.failed.is_some() {
             return;
@@ -330,9 +341,30 @@ fn run_ops(
                 }
                 *model = m;
             }
+            Op::Get(k) => {
+                let k = unhex(k);
+                let got = cache.get(&k);
+                st.rep.bump("c06/op_single_get");
+                if got.as_ref() != model.get(&k) {
+                    st.fail("overlay-get-differs-from-ordered-map", format!("depth {} op #{}: get({}) = {:?}, model {:?} (a single read between writes, no sweep of reads in between)", depth, i, hex(&k), got.map(|v| hex(&v)), model.get(&k).map(|v| hex(v))));
+                }
+            }
+            Op::Scan { start, end, desc, take } => {
+                let (sb, eb) = (start.as_ref().map(|x| unhex(x)), end.as_ref().map(|x| unhex(x)));
+                let order = if *desc { Order::Descending } else { Order::Ascending };
+                let got: Vec<(Vec<u8>, Vec<u8>)> = cache.range(sb.as_deref(), eb.as_deref(), order).take(*take as usize).collect();
+                let want: Vec<(Vec<u8>, Vec<u8>)> = model_range(model, sb.as_deref(), eb.as_deref(), order).into_iter().take(*take as usize).collect();
+                st.rep.bump("c06/op_partial_scan");
+                if got != want {
+                    st.fail("overlay-range-differs-from-ordered-map", format!("depth {} op #{}: the first {} records of range({:?},{:?},{:?}) = {:?}, model {:?}", depth, i, take, start, end, order, got.iter().map(|(k, v)| format!("{}={}", hex(k), hex(v))).collect::<Vec<_>>(), want.iter().map(|(k, v)| format!("{}={}", hex(k), hex(v))).collect::<Vec<_>>()));
+                }
+            }
         }
         st.rep.evaluations += 1;
         let last = i + 1 == ops.len();
+        if st.sparse && !last {
+            continue;
+        }
         st.compare(cache, model, delta, base_model, last && depth <= 2, &format!("depth {} after op #{}", depth, i));
         if let Some(read) = read {
             // the helper's read view must still show the pre-state
@@ -348,7 +380,8 @@ fn run_ops(
 }
 
 pub fn run_case(case: &Case, rep: &mut Report) -> Option<(String, String)> {
-    let mut base = MemoryStorage::new();
+    // the base is a user-supplied ordered map that also keeps empty values (cosmwasm_std's MemoryStorage rejects them)
+    let mut base = LooseStore::default();
     let mut base_model = Map::new();
     for (k, v) in &case.base {
         base.set(&unhex(k), &unhex(v));
@@ -359,6 +392,7 @@ pub fn run_case(case: &Case, rep: &mut Report) -> Option<(String, String)> {
         rng: Rng::new(case.check_seed),
         universe: case.universe.iter().map(|k| unhex(k)).collect(),
         sample_pairs: case.sample_pairs,
+        sparse: case.sparse,
         failed: None,
         max_depth: 0,
     };
@@ -407,9 +441,39 @@ fn gen_ops(rng: &mut Rng, depth_left: usize, counter: &mut u32, n: usize, keys: 
     for _ in 0..n {
         let r = rng.below(100);
         let k = if rng.chance(3, 4) && !keys.is_empty() { rng.pick(keys).clone() } else { gen_key(rng) };
+        // a read, a write to the same key, the same read again (nothing else in between)
+        if rng.chance(1, 8) {
+            let read = if rng.chance(2, 3) { Op::Get(hex(&k)) } else { Op::Scan { start: if rng.chance(1, 2) { Some(hex(&k)) } else { None }, end: None, desc: false, take: rng.range(1, 3) as u32 } };
+            ops.push(read.clone());
+            if rng.chance(1, 2) {
+                ops.push(Op::Remove(hex(&k)));
+            } else {
+                *counter += 1;
+                ops.push(Op::Set(hex(&k), hex(format!("w{}", counter).as_bytes())));
+            }
+            ops.push(read);
+            continue;
+        }
+        // single reads and partial scans between the writes
+        if rng.chance(1, 4) {
+            if rng.chance(2, 3) {
+                ops.push(Op::Get(hex(&k)));
+            } else {
+                let other = if !keys.is_empty() { rng.pick(keys).clone() } else { gen_key(rng) };
+                let (start, end) = match rng.below(4) {
+                    0 => (None, None),
+                    1 => (Some(hex(&k)), None),
+                    2 => (None, Some(hex(&k))),
+                    _ => (Some(hex(&k.clone().min(other.clone()))), Some(hex(&k.clone().max(other)))),
+                };
+                ops.push(Op::Scan { start, end, desc: rng.chance(1, 2), take: rng.range(0, 3) as u32 });
+            }
+            continue;
+        }
         if r < 50 {
             *counter += 1;
-            ops.push(Op::Set(hex(&k), hex(format!("v{}", counter).as_bytes())));
+            // now and then the empty value: a record like any other
+            ops.push(Op::Set(hex(&k), if rng.chance(1, 15) { String::new() } else { hex(format!("v{}", counter).as_bytes()) }));
         } else if r < 80 {
             ops.push(Op::Remove(hex(&k)));
         } else if depth_left > 0 {
@@ -435,7 +499,7 @@ pub fn gen_random(rng: &mut Rng, max_depth: usize) -> Case {
     for _ in 0..nbase {
         let k = if rng.chance(3, 4) { rng.pick(&keys).clone() } else { gen_key(rng) };
         counter += 1;
-        base.push((hex(&k), hex(format!("b{}", counter).as_bytes())));
+        base.push((hex(&k), if rng.chance(1, 15) { String::new() } else { hex(format!("b{}", counter).as_bytes()) }));
     }
     // now and then a long program: hundreds of operations logged in one layer
     let n = if rng.chance(1, 60) { rng.range(130, 220) as usize } else { rng.range(1, 30) as usize };
@@ -479,7 +543,8 @@ pub fn gen_random(rng: &mut Rng, max_depth: usize) -> Case {
     fn collect(ops: &[Op], uni: &mut Vec<Vec<u8>>) {
         for o in ops {
             match o {
-                Op::Set(k, _) | Op::Remove(k) => uni.push(unhex(k)),
+                Op::Set(k, _) | Op::Remove(k) | Op::Get(k) => uni.push(unhex(k)),
+                Op::Scan { .. } => {}
                 Op::Child { ops, .. } => collect(ops, uni),
             }
         }
@@ -492,6 +557,7 @@ pub fn gen_random(rng: &mut Rng, max_depth: usize) -> Case {
         root: Op::Child { helper: rng.chance(1, 4), ops, commit: rng.chance(2, 3) },
         universe: uni.iter().map(|k| hex(k)).collect(),
         sample_pairs: 12,
+        sparse: rng.chance(1, 2),
         check_seed: rng.next_u64(),
     }
 }
@@ -542,7 +608,7 @@ pub fn exhaustive(rep: &mut Report, len: usize, op_keys: &[&[u8]], base_keys: &[
             let nested = Op::Child { helper: false, ops: o, commit: (variant / 2) % 2 == 0 };
             let flat = Op::Child { helper: (code + bmask) % 5 == 0, ops, commit: true };
             for root in [flat, nested] {
-                let case = Case { base: base.clone(), root, universe: uni.clone(), sample_pairs: 0, check_seed: 0 };
+                let case = Case { base: base.clone(), root, universe: uni.clone(), sample_pairs: 0, check_seed: 0, sparse: false };
                 rep.bump("c06/exhaustive_cases");
                 if let Some((sig, detail)) = run_case(&case, rep) {
                     failures.push((case, sig, detail));
